@@ -68,7 +68,7 @@ func (c07) Rule() string {
 		"systematic: truncation at every offset of small GenBank/FASTA texts (LF and CRLF, single and two-record); every declared LOCUS length 0..n+70 plus n+-60, 10^9, 2^63-1, negative, for ORIGIN blocks of n in {0,1,10,59,60,61,120,133} residues as LF and CRLF; every byte of a minimal record overwritten by 6 values; every mutation operator 24x on each small base; the shapes the statement names (field names wider than the LOCUS indent, DBLINK values `X:`, an unreadable record followed by an intact one); extreme arity and nesting (16k-part joins/orders, 5k-deep complement(/join( nesting closed and unclosed, 16k selector clauses, 5k-deep regexp groups, 60 KiB numbers and quoted values, 32k FASTA records). " +
 		"seeded: 1..3 operators of {truncate, delete/duplicate/swap lines, overwrite a byte, shrink/grow an indent by 1-4, collapse spaces, drop a field value, rewrite the numbers of a line, rewrite the declared length (n+-1, n+-60, 0, 10^9, other), LF<->CRLF of the text or of one line, splice two records, remove `//`, duplicate the ORIGIN block} over the corpus seqio/testdata/*.gb, *.fasta, pBAT5.txt, records written with seqio.GenBank.String() (0..200 residues, 0..4 features, optional DBLINK/REFERENCE/COMMENT/CONTIG/extra fields), FASTA text and 2-3 record streams; raw random bytes; for the string entry points printed values and hand-written seeds under truncate/delete/substitute/insert over the entry point's alphabet, and raw bytes. " +
 		"oracle: no panic, no process death, every Scan loop ends within len(input)+2 iterations, Scan stays false after it returned false, a true Scan has a value with Len() == len(Bytes()) >= 0, <= 30 CPU-s per input (process CPU, best of two runs; a case that has not returned after 45 CPU-s kills the worker and is re-run alone by the parent); a yielded GenBank record whose consumed text has an ORIGIN block must have Len() == the declared LOCUS length == the residues present in that block (class inconsistent-record-accepted), judged only when the simple reader can tell the field structure (no unbalanced quote, escape, colon-less CONTIG or separator inside the consumed text). Whether a mutant is accepted or rejected is otherwise don't-care. " +
-		"non-trivial: a non-empty input; distinct: entry point + FNV-64 and length of the input bytes (the recipe is not part of the key). Also: 16 fields and sub-fields whose value is white space only (11 widths, LF/CRLF), and scaling probes for the lines of an unquoted qualifier value and for CONTIG lines that name no accession."
+		"non-trivial: a non-empty input; distinct: entry point + FNV-64 and length of the input bytes (the recipe is not part of the key). Also: 16 fields and sub-fields whose value is white space only (11 widths, LF/CRLF), and scaling probes for the lines of an unquoted qualifier value and for CONTIG lines that name no accession. Scaling probe for the complemented parts of a join; a truncated GenBank record followed by an intact FASTA record (and the other way round) must end in an error, not in the intact record alone."
 }
 
 func (c07) Assumptions() []string {
@@ -1340,6 +1340,18 @@ func (s *c07State) scaling() {
 		{"CONTIG lines that name no accession", func(n int) string {
 			return fmt.Sprintf(head, 4) + strings.Repeat("CONTIG      join(\n", n) + "ORIGIN      \n        1 acgt\n//\n"
 		}, 600, ""},
+		{"complemented parts of a join", func(n int) string {
+			var b strings.Builder
+			b.WriteString("join(")
+			for i := 0; i < n; i++ {
+				if i > 0 {
+					b.WriteString(",")
+				}
+				fmt.Fprintf(&b, "complement(%d..%d)", 10*i+1, 10*i+5)
+			}
+			b.WriteString(")")
+			return b.String()
+		}, 400, "location"},
 		{"records of a stream", func(n int) string {
 			return strings.Repeat(fmt.Sprintf(head, 4)+"ORIGIN      \n        1 acgt\n//\n", n)
 		}, 150, ""},
@@ -1715,6 +1727,9 @@ func (s *c07State) systematic() {
 			"LOCUS       X 4 bp DNA linear UNA 01-JAN-2020\nFEATURES             Location/Qualifiers\n     gene            bad\n",
 			"LOCUS       X 4 bp DNA linear UNA 01-JAN-2020\nREFERENCE   x\n",
 			"LOCUS       X 4 bp DNA linear UNA 01-JAN-2020\ngarbage\n",
+			"LOCUS       X 4 bp DNA linear UNA 01-JAN-2020\nORIGIN      \n        1 ac\n",
+			"LOCUS       X 40 bp DNA linear UNA 01-JAN-2020\nFEATURES             Location/Qualifiers\n     gene            1..4\n                     /gene=\"a\"\nORIGIN      \n        1 acgtacgtac\n",
+			"LOCUS       X 4 bp DNA linear UNA 01-JAN-2020\nDEFINITION  d.\nORIGIN      \n",
 			">fasta first\nACGT\n",
 			"garbage\n",
 			"//\n",
@@ -1723,6 +1738,11 @@ func (s *c07State) systematic() {
 			for _, lead := range []string{"", string(intact)} {
 				in := append([]byte(lead+bad), intact...)
 				s.sys(c07Case{entry: "scan", source: "named", recipe: fmt.Sprintf("unreadable record %q after %d intact bytes, then an intact record", bad, len(lead)), ops: []string{"splice"}, input: in})
+			}
+			// ... and followed by an intact record of the other format.
+			if strings.HasPrefix(bad, "LOCUS") {
+				in := []byte(bad + ">fasta follows\nacgtacgtacgtacgtacgtacgtacgtacgtacgtacgtacgtacgtacgt\n")
+				s.sys(c07Case{entry: "scan", source: "named", recipe: fmt.Sprintf("unreadable GenBank record %q, then an intact FASTA record", bad), ops: []string{"splice"}, input: in})
 			}
 		}
 	}
@@ -2181,6 +2201,28 @@ func (s *c07State) tails() {
 			tail := rec[:k]
 			if strings.TrimSpace(tail) == "" {
 				continue
+			}
+			if strings.HasSuffix(tail, "\n") && strings.HasPrefix(tail, "LOCUS") {
+				// the cut record first, a record of the other format behind it:
+				// the cut one is not passed over in silence.
+				for _, eol := range []string{"\n", "\r\n"} {
+					if !c.NextShared() {
+						continue
+					}
+					in := strings.ReplaceAll(tail+">fasta follows\nacgtacgtacgtacgtacgtacgtacgtacgtacgtacgtacgtacgtacgt\n", "\n", eol)
+					enc := fmt.Sprintf("truncated first record: the first %d bytes of record %d, then an intact FASTA record, eol %q; the cut part ends in %q", k, ti, eol, clipS(tail[max(0, len(tail)-40):], 60))
+					c.Begin(enc)
+					c.Count(fmt.Sprintf("tail-then-fasta|%d|%d|%q", ti, k, eol), true)
+					c.Bucket("truncated-record-then-other-format")
+					p, val, site, n, _, err := c07ScanOnce(in)
+					if p {
+						c.ViolateX("truncated-record-then-other-format:"+panicClass(site, val), enc, "an error", fmt.Sprint(val), "", nil)
+						continue
+					}
+					if err == nil {
+						c.Violate("truncated-record-dropped-before-a-record-of-the-other-format", enc, "an error", fmt.Sprintf("%d records read, no error", n))
+					}
+				}
 			}
 			for hi, headText := range []string{rec, rec + rec, fasta} {
 				if hi == 2 && k%5 != 0 {
